@@ -69,6 +69,7 @@ class G:
         self.rng = rng
         self.k = 0
         self.allow_vars = allow_vars
+        self.allow_async = False
 
     def tag(self):
         self.k += 1
@@ -95,6 +96,23 @@ class G:
             return ["if", rng.random() < 0.3, self.leaf(), self.form(depth - 1, hv), self.form(depth - 1, hv)]
         if r < 0.52 and self.allow_vars:
             return ["setv", rng.choice(VARS), self.form(depth - 1, hv)]
+        if r < 0.6 and depth >= 2:
+            # the same constructs inside an immediately called closure or inside a comprehension that needs statements
+            # (both are compiled as nested functions: temporaries and hidden handler names must stay distinct across
+            # them; no assignments inside, they would be local)
+            saved = self.allow_vars
+            saved_async, self.allow_async = self.allow_async, False
+            self.allow_vars = False
+            try:
+                inner = [self.try_(depth - 1, hv) if self.rng.random() < 0.6 else self.with_(depth - 1, hv)]
+                if hv and self.rng.random() < 0.5:
+                    inner.append(["tn", hv])
+                elif self.rng.random() < 0.4:
+                    inner.append(self.leaf())
+            finally:
+                self.allow_vars = saved
+                self.allow_async = saved_async
+            return [self.rng.choice(["closure", "comp"]), inner]
         if r < 0.8:
             return self.try_(depth, hv)
         return self.with_(depth, hv)
@@ -125,15 +143,18 @@ class G:
         ms = []
         for _ in range(rng.choice([1, 1, 2, 3])):
             ms.append({"k": self.tag(), "var": (rng.choice([None, "w", "x"]) if self.allow_vars else None),
-                       "suppress": rng.random() < 0.4, "pre": (self.tag() if rng.random() < 0.3 else None)})
+                       "suppress": rng.random() < 0.4, "pre": (self.tag() if rng.random() < 0.3 else None),
+                       "async": self.allow_async and rng.random() < 0.45})
         return ["with", ms, self.body(depth - 1, 0, 2, hv)]
 
 
 def generate(rng, tier):
-    placement = rng.choice(["top", "top", "call", "fn", "fnret"])
+    placement = rng.choice(["top", "top", "call", "fn", "fnret", "afn"])
     g = G(rng, allow_vars=placement in ("top", "call"))
+    # inside a coroutine a `with` may mix synchronous and asynchronous managers (Hy splits it into nested statements)
+    g.allow_async = placement == "afn"
     depth = rng.choice([1, 2, 2, 3])
-    root = g.try_(depth) if rng.random() < 0.6 else g.with_(depth)
+    root = g.try_(depth) if rng.random() < (0.6 if placement != "afn" else 0.3) else g.with_(depth)
     if rng.random() < 0.15:
         # a handler that contains another try binding the SAME variable name, and reads its own variable afterwards
         v = rng.choice(["e", "x", "err"])
@@ -205,6 +226,10 @@ def hy_src(n):
         return f"(if {c} {hy_src(n[3])} {hy_src(n[4])})"
     if t == "setv":
         return f"(setv {n[1]} {hy_src(n[2])})"
+    if t == "closure":
+        return "((fn [] " + " ".join(hy_src(x) for x in n[1]) + "))"
+    if t == "comp":
+        return "(lfor _q [0] (do " + " ".join(hy_src(x) for x in n[1]) + "))"
     if t == "ret":
         return f"(return {hy_src(n[1])})"
     if t == "try":
@@ -226,9 +251,9 @@ def hy_src(n):
     if t == "with":
         _, ms, body = n
         def mexpr(m):
-            c = f"(CM {m['k']} {'True' if m['suppress'] else 'False'})"
+            c = f"({'ACM' if m.get('async') else 'CM'} {m['k']} {'True' if m['suppress'] else 'False'})"
             return f"(do (E {m['pre']}) {c})" if m.get("pre") else c
-        items = " ".join((f"{m['var']} " if m["var"] else "_ ") + mexpr(m) for m in ms)
+        items = " ".join((":async " if m.get("async") else "") + (f"{m['var']} " if m["var"] else "_ ") + mexpr(m) for m in ms)
         return f"(with [{items}] " + " ".join(hy_src(x) for x in body) + ")"
     raise ValueError(t)
 
@@ -255,6 +280,9 @@ def program(desc):
         return init + (pre + "\n" if pre else "") + f"(setv RESULT (F 1 {hy_src(root)} 2))\n" + (post + "\n" if post else "") + "RESULT\n", root
     if pl == "fn":
         return init + f"((fn [] {pre} (setv r {hy_src(root)}) {post} r))\n", root
+    if pl == "afn":
+        # a coroutine driven to completion by the harness (no awaitable in it ever suspends)
+        return init + f"(defn :async amain [] {pre} (setv r {hy_src(root)}) {post} r)\n(DRIVE (amain))\n", root
     r2 = _with_return(root, 0)
     return init + f"((fn [] {pre} {hy_src(r2)} {post} \"fell-through\"))\n", r2
 
@@ -332,6 +360,10 @@ class Ref:
                 raise
             self.set(n[1], v)
             return None
+        if t == "closure":
+            return self.body(n[1])
+        if t == "comp":
+            return [self.body(n[1])]
         if t == "ret":
             raise ReturnSignal(self.ev(n[1]))
         if t == "try":
@@ -391,11 +423,11 @@ class Ref:
                 s.m = m
 
             def __enter__(s):
-                ref.eff.hit([s.m["k"], "enter"])
+                ref.eff.hit([s.m["k"], "aenter" if s.m.get("async") else "enter"])
                 return s.m["k"] * 10
 
             def __exit__(s, et, ev, tb):
-                ref.eff.hit([s.m["k"], "exit"])
+                ref.eff.hit([s.m["k"], "aexit" if s.m.get("async") else "exit"])
                 if et is not None and issubclass(et, ReturnSignal):
                     return False  # a `return` is not an exception: nothing to suppress
                 return s.m["suppress"]
@@ -445,7 +477,30 @@ def make_env(eff):
             eff.hit([s.k, "exit"])
             return s.suppress
 
-    return {"E": E, "T": T, "CM": CM, "F": lambda *a: list(a), "TN": lambda x: type(x).__name__}
+    class ACM:
+        def __init__(s, k, suppress):
+            eff.hit([k, "new"])
+            s.k, s.suppress = k, suppress
+
+        async def __aenter__(s):
+            eff.hit([s.k, "aenter"])
+            return s.k * 10
+
+        async def __aexit__(s, *a):
+            eff.hit([s.k, "aexit"])
+            return s.suppress
+
+    def DRIVE(coro):
+        # nothing in the generated coroutines ever suspends: one send runs it to completion
+        try:
+            coro.send(None)
+        except StopIteration as stop:
+            return stop.value
+        finally:
+            coro.close()
+        raise RuntimeError("harness: generated coroutine suspended")
+
+    return {"E": E, "T": T, "CM": CM, "ACM": ACM, "DRIVE": DRIVE, "F": lambda *a: list(a), "TN": lambda x: type(x).__name__}
 
 
 def describe_exc(e):
@@ -483,7 +538,7 @@ def run_ref(desc, root, plan):
             if pl == "call":
                 v = [1, v, 2]
             ref.body(desc["post"])
-        elif pl == "fn":
+        elif pl in ("fn", "afn"):
             v = ref.ev(root)
             ref.body(desc["post"])
         else:
@@ -615,6 +670,15 @@ def _simpler(n):
             yield x
             for s in _simpler(x):
                 yield ["do", n[1][:i] + [s] + n[1][i + 1:]]
+    elif t in ("closure", "comp"):
+        for x in n[1]:
+            yield x
+        for i in range(len(n[1])):
+            if len(n[1]) > 1:
+                yield [t, n[1][:i] + n[1][i + 1:]]
+        for i, x in enumerate(n[1]):
+            for s in _simpler(x):
+                yield [t, n[1][:i] + [s] + n[1][i + 1:]]
     elif t == "if":
         yield n[3]
         yield n[4]
@@ -657,6 +721,8 @@ def _simpler(n):
         for i, m in enumerate(ms):
             if m["var"]:
                 yield ["with", ms[:i] + [dict(m, var=None)] + ms[i + 1:], body]
+            if m.get("async"):
+                yield ["with", ms[:i] + [dict(m, **{"async": False})] + ms[i + 1:], body]
         for i in range(len(body)):
             yield ["with", ms, body[:i] + body[i + 1:]]
         for i, x in enumerate(body):
